@@ -131,10 +131,11 @@ def inverse_haversine_radians(
     x0 = start.longitude * math.pi / 180
     y0 = start.latitude * math.pi / 180
 
-    final_lat = math.asin(
+    # Rounding can push the sine an ulp outside [-1, 1] when the destination is a pole
+    final_lat = math.asin(max(-1.0, min(1.0, (
         math.sin(y0) * math.cos(_rad)
         + math.cos(y0) * math.sin(_rad) * math.cos(angle_radians)
-    )
+    ))))
     final_lon = x0 + math.atan2(
         math.sin(angle_radians) * math.sin(_rad) * math.cos(y0),
         math.cos(_rad) - math.sin(y0) * math.sin(final_lat),
